@@ -2,5 +2,5 @@
 From Coq Require Import NArith String List Bool Arith.
 From UPF Require Import Base.LTS Model.Teardown Proofs.TeardownBounded.
 Import ListNotations.
-Lemma inst8_terminates : level 47 (init cfg4 [EStop]) = [].
+Lemma inst8_terminates : level 49 (init cfg4 [EStop]) = [].
 Proof. vm_compute. reflexivity. Qed.
